@@ -74,11 +74,17 @@ def k3_child_derivation(chk, F, A, tag):
     okp = False
     detail = ""
     for b, t in f.calls():
-        if core.strip_generics(core.callee_path(t) or "").endswith("copy_from_slice") and not f.blocks[b]["cleanup"]:
-            tok = T.token(f, t["args"][1], at=b)
+        last = core.strip_generics(core.callee_path(t) or "").rsplit("::", 1)[-1]
+        if f.blocks[b]["cleanup"]:
+            continue
+        # identifier.copy_from_slice(&out[..ILEN])  or  out[..ILEN].try_into()
+        src = t["args"][1] if last == "copy_from_slice" and len(t["args"]) == 2 else (t["args"][0] if last in ("try_into", "try_from") and t["args"] else None)
+        if src is not None:
+            tok = T.token(f, src, at=b)
             c = hlref.canon(tok)
-            detail = c
-            okp = c == "SUB(V,..%d)" % ilen
+            if last == "copy_from_slice" or c.startswith("SUB("):
+                detail = c
+                okp = okp or c == "SUB(V,..%d)" % ilen
     chk.ob("K3.identifier-is-prefix-of-second-output", f.key + tag, okp, "the child identifier is %s, expected the first %d bytes of the derivation output" % (detail, ilen), where=f.loc())
 
 
